@@ -505,4 +505,64 @@ Section Refine.
       rewrite ptext_arr. cbn [map]. rewrite join_cons. unfold ptext.
       repeat (rewrite <- ?app_assoc; cbn [app]). reflexivity.
   Qed.
+
+  (* ---------------------------------------------------------------- maps *)
+  Lemma entries_F2 : forall d kk t kvs ps,
+    (forall kx, In kx kvs -> P (snd kx)) ->
+    (forall kx, In kx kvs -> key_okb kk (fst kx) = true /\ wf_fld S LSingular t (snd kx) = true /\
+                             wf_wval (entry_wval kx) = true) ->
+    (forall kx, In kx kvs -> key_bytes_okb (fst kx) = true /\ pval_bytes_okb (snd kx) = true) ->
+    (forall kx, In kx kvs -> (depth (snd kx) <= d)%nat) ->
+    Forall2 (fun kx e => (if key_kind_okb kk (fst kx)
+                          then option_map (fun p => (fst kx, p)) (pj_fld S o LSingular t (snd kx)) else None) = Some e) kvs ps ->
+    Forall2 (fun kx e => fst e = fst kx /\ key_okb kk (fst kx) = true /\ key_kind_okb kk (fst kx) = true /\
+                         key_bytes_okb (fst kx) = true /\ wf_wval (sval (snd kx)) = true /\ wf_wval (entry_wval kx) = true /\
+                         forall r, read_single f64_lex o (wm d) t (wenc_val (sval (snd kx)) ++ r) = res (snd e) r) kvs ps.
+  Proof.
+    intros d kk t kvs ps H1 H2 H3 H4 HF. induction HF as [|kx e kvs ps He _ IHF]; [constructor|].
+    constructor.
+    - destruct (H2 kx (or_introl eq_refl)) as (Hok & Hwf & Hlen). destruct (H3 kx (or_introl eq_refl)) as (Hkb & Hvb).
+      destruct (key_kind_okb kk (fst kx)) eqn:Hkind; [|discriminate He].
+      destruct (pj_fld S o LSingular t (snd kx)) as [p|] eqn:Hp; [|discriminate He].
+      inversion He; subst e. cbn [fst snd].
+      repeat split; try assumption; try reflexivity.
+      + apply (sval_wf S t). exact Hwf.
+      + apply single_of_P; [apply H1; left; reflexivity | exact Hwf | exact Hvb | exact Hp | apply H4; left; reflexivity].
+    - apply IHF; intros kx' Hk'; [apply H1 | apply H2 | apply H3 | apply H4]; right; exact Hk'.
+  Qed.
+
+  Lemma ptext_map : forall kk ps, json_print (pj_json (PJMap kk ps)) = 123 :: join (map entry_text ps) ++ [125].
+  Proof. intros kk ps. cbn [pj_json]. rewrite print_obj, map_map. reflexivity. Qed.
+
+  Lemma P_map : forall kvs, Forall (fun kx => P (snd kx)) kvs -> P (VMap kvs).
+  Proof.
+    intros kvs IH d lbl t n p rest Hwf Hb Hp Hd Hn Hstop.
+    destruct lbl as [|pk|kk]; cbn [wf_fld] in Hwf; try discriminate.
+    destruct Hstop as [Hstop|Hstop]; [discriminate|].
+    apply andb_true_iff in Hwf as [Hwf Hall]. apply andb_true_iff in Hwf as [Hne _].
+    cbn [pj_fld] in Hp.
+    match type of Hp with option_map _ ?x = _ => destruct x as [ps|] eqn:E; [|discriminate] end.
+    inversion Hp; subst p. clear Hp. apply seq_opt_Forall2 in E.
+    cbn [pval_bytes_okb] in Hb. cbn [depth] in Hd.
+    rewrite forallb_forall in Hall, Hb. rewrite Forall_forall in IH.
+    assert (Hdep : forall kx, In kx kvs -> (depth (snd kx) <= d)%nat).
+    { intros kx Hx. pose proof (fold_max_ge (fun kx => depth (snd kx)) kvs kx Hx). cbn beta in H. lia. }
+    assert (H2 : forall kx, In kx kvs -> key_okb kk (fst kx) = true /\ wf_fld S LSingular t (snd kx) = true /\
+                                        wf_wval (entry_wval kx) = true).
+    { intros kx Hx. specialize (Hall kx Hx). apply andb_true_iff in Hall as [Hall Hlen].
+      apply andb_true_iff in Hall as [Hk Hw]. repeat split; try assumption.
+      unfold entry_wval. cbn [wf_wval]. rewrite (wfld_single _ _ _ 2 Hw) in Hlen. exact Hlen. }
+    assert (H3 : forall kx, In kx kvs -> key_bytes_okb (fst kx) = true /\ pval_bytes_okb (snd kx) = true).
+    { intros kx Hx. specialize (Hb kx Hx). apply andb_true_iff in Hb. exact Hb. }
+    pose proof (entries_F2 d kk t kvs ps IH H2 H3 Hdep E) as HF.
+    destruct kvs as [|[k x] kvs]; [discriminate Hne|].
+    inversion HF as [|? [k' p1] ? ps' (Hk & Hok & Hkind & Hkb & Hwv & Hlen & Hrd) HF']; subst. cbn [fst snd] in *. subst k'.
+    cbn [fvals map]. unfold walk_lbl, walk_map.
+    rewrite (read_entry_ok d kk t k x p1 _ Hok Hkind Hkb Hwv Hlen Hrd).
+    unfold res. cbn [pj_finite forallb snd]. destruct (pj_finite p1); [|reflexivity]. cbn [andb].
+    rewrite (map_loop_ok d kk t n kvs ps' Hn HF' _ rest Hstop) by lia.
+    destruct (forallb (fun e => pj_finite (snd e)) ps'); [|reflexivity].
+    rewrite ptext_map. cbn [map]. rewrite join_cons.
+    repeat (rewrite <- ?app_assoc; cbn [app]). reflexivity.
+  Qed.
 End Refine.
